@@ -2,6 +2,7 @@ package vh
 
 import (
 	"context"
+	"net"
 	"encoding/json"
 	"fmt"
 	"time"
@@ -93,6 +94,17 @@ func routesJSON(cfg *RouterCfg, L int, scale int) ([]map[string]any, error) {
 				hs = append(hs, map[string]any{"handler": "verif_h", "k": "term", "l": L, "r": ri + 1})
 			case "pass", "wrap":
 				hs = append(hs, map[string]any{"handler": "verif_h", "k": h.K})
+			case "thr":
+				// the real throttle handler with limits that never make it wait
+				hs = append(hs, map[string]any{"handler": "throttle", "read_bytes_per_second": 1e12, "read_burst_size": 1 << 24})
+			case "tee":
+				hs = append(hs, map[string]any{"handler": "verif_h", "k": "teemark"},
+					map[string]any{"handler": "tee", "branch": []map[string]any{{"handler": "verif_h", "k": "branchterm"}}})
+			case "pp":
+				// the real proxy_protocol handler, then a marker that accounts for the header it stripped
+				hs = append(hs, map[string]any{"handler": "proxy_protocol"}, map[string]any{"handler": "verif_h", "k": "ppmark", "n": h.N * scale})
+			case "echo":
+				hs = append(hs, map[string]any{"handler": "verif_h", "k": "echomark", "l": L, "r": ri + 1}, map[string]any{"handler": "echo"})
 			case "eat":
 				hs = append(hs, map[string]any{"handler": "verif_h", "k": "eat", "n": h.N * scale})
 			case "sub":
@@ -111,11 +123,15 @@ func routesJSON(cfg *RouterCfg, L int, scale int) ([]map[string]any, error) {
 				return nil, fmt.Errorf("unknown handler kind %q", h.K)
 			}
 		}
+		hs = append(hs, map[string]any{"handler": "verif_h", "k": "endmark"})
 		route["handle"] = hs
 		routes = append(routes, route)
 	}
 	return routes, nil
 }
+
+// UseCaddyEnv makes RunRouter provision under the in-process Caddy instance (CaddyContext).
+var UseCaddyEnv = true
 
 // RouterRun is one execution of the real router.
 type RouterRun struct {
@@ -142,13 +158,25 @@ func RunRouter(run *RouterRun) (hist []Ev, aux []Ev, err error) {
 			return nil, nil, fmt.Errorf("unmarshal routes: %v", err)
 		}
 	}
-	ctx, cancel := caddy.NewContext(caddy.Context{Context: context.Background()})
+	base := caddy.Context{Context: context.Background()}
+	if UseCaddyEnv {
+		// contexts derived from the in-process Caddy instance: module loggers are discarded
+		if base, err = CaddyContext(); err != nil {
+			return nil, nil, err
+		}
+	}
+	ctx, cancel := caddy.NewContext(base)
 	defer cancel()
 	if err := routes.Provision(ctx); err != nil {
 		return nil, nil, fmt.Errorf("provision: %v", err)
 	}
 
 	stream := MakeStream(run.Tag, run.Slen*run.Scale+64)
+	if n := ppHeaderLen(run.Cfg); n > 0 {
+		// the stream begins with a PROXY header of exactly n units
+		hdr := MakeProxyHeader(n * run.Scale)
+		copy(stream, hdr)
+	}
 	rec := NewRecorder(stream)
 	pulls := make([]int, len(run.Pulls))
 	for i, p := range run.Pulls {
@@ -158,6 +186,9 @@ func RunRouter(run *RouterRun) (hist []Ev, aux []Ev, err error) {
 		Start: time.Now(), Unit: DlUnit}
 	fallback := layer4.HandlerFunc(func(cx *layer4.Connection) error {
 		rec.Add(Ev{"e": "Fallback", "l": 1, "vis": len(cx.MatchingBytes()), "pos": rec.Expect})
+		// the harness's fallback reads the rest of the stream: it must have received it intact
+		segs, _ := readRecorded(rec, cx, -1)
+		addHRead(rec, segs)
 		return nil
 	})
 	compiled := routes.Compile(zap.NewNop(), DlUnit, fallback)
@@ -171,6 +202,24 @@ func RunRouter(run *RouterRun) (hist []Ev, aux []Ev, err error) {
 			}
 		}()
 		herr := compiled.Handle(cx)
+		if rec.EchoL != 0 {
+			// the real echo handler ran: what it wrote back is what it read
+			var segs Segs
+			segs = rec.NoteRead(segs, sc.Written)
+			addHRead(rec, segs)
+			rec.Add(Ev{"e": "Term", "l": rec.EchoL, "r": rec.EchoR})
+		}
+		if herr != nil {
+			noted := false
+			for _, e := range rec.Snapshot() {
+				if e["e"] == "HErr" {
+					noted = true
+				}
+			}
+			if !noted {
+				rec.Add(Ev{"e": "HErr"})
+			}
+		}
 		fbSeen := false
 		for _, e := range rec.Hist {
 			if e["e"] == "Fallback" && e["l"] == 1 {
@@ -181,6 +230,14 @@ func RunRouter(run *RouterRun) (hist []Ev, aux []Ev, err error) {
 			if kind, ok := ListEnded(rec, 0); ok {
 				rec.Add(Ev{"e": "Abort", "k": kind})
 			}
+		}
+		if rec.TeeSeen {
+			// the branch's pipe closes when the main chain reads EOF; otherwise it never finishes
+			wait := 2 * time.Millisecond
+			if last := rec.Last(); last != nil && (last["e"] == "Term" || last["e"] == "HRead") {
+				wait = 500 * time.Millisecond
+			}
+			rec.WaitBranch(wait)
 		}
 		rec.Add(Ev{"e": "Return"})
 	}()
@@ -199,6 +256,7 @@ func ScaleHist(hist []Ev, scale int) (out []Ev, ok bool) {
 	}
 	for _, e := range hist {
 		n := Ev{}
+		_ = n
 		for k, v := range e {
 			n[k] = v
 		}
@@ -208,8 +266,8 @@ func ScaleHist(hist []Ev, scale int) (out []Ev, ok bool) {
 		case "Handle", "Enter", "Fallback":
 			n["vis"] = div(e["vis"].(int))
 			n["pos"] = div(e["pos"].(int))
-		case "HRead":
-			var ss Segs
+		case "HRead", "Branch":
+			ss := Segs{}
 			for _, s := range e["segs"].(Segs) {
 				if s[0] < 0 {
 					ok = false
@@ -261,3 +319,56 @@ func ScaleCfg(cfg *RouterCfg, scale int) *RouterCfg {
 	}
 	return out
 }
+
+func usesKind(cfg *RouterCfg, k string) bool { l, _ := findKind(cfg, k); return l != 0 }
+
+// findKind returns list and route (1-based) of the first handler of that kind.
+func findKind(cfg *RouterCfg, k string) (int, int) {
+	for li, l := range cfg.Lists {
+		for ri, r := range l {
+			for _, h := range r.Hs {
+				if h.K == k {
+					return li + 1, ri + 1
+				}
+			}
+		}
+	}
+	return 0, 0
+}
+
+// ppHeaderLen returns the header length (in units) the configuration's proxy_protocol handler expects.
+func ppHeaderLen(cfg *RouterCfg) int {
+	for _, l := range cfg.Lists {
+		for _, r := range l {
+			for _, h := range r.Hs {
+				if h.K == "pp" {
+					return h.N
+				}
+			}
+		}
+	}
+	return 0
+}
+
+// MakeProxyHeader builds a PROXY protocol header: n = 28 gives the v2 header for TCP over
+// IPv4 (203.0.113.7:4242 -> 198.51.100.9:443), n = 52 the v2 header for TCP over IPv6, anything
+// else the v1 text header (46 bytes; the caller then uses that length).
+func MakeProxyHeader(n int) []byte {
+	sig := []byte{0x0D, 0x0A, 0x0D, 0x0A, 0x00, 0x0D, 0x0A, 0x51, 0x55, 0x49, 0x54, 0x0A}
+	switch n {
+	case 28:
+		h := append(sig, 0x21, 0x11, 0, 12)
+		return append(h, 203, 0, 113, 7, 198, 51, 100, 9, 0x10, 0x92, 0x01, 0xBB)
+	case 52:
+		h := append(sig, 0x21, 0x21, 0, 36)
+		src := net.ParseIP("2001:db8::7").To16()
+		dst := net.ParseIP("2001:db8::9").To16()
+		h = append(h, src...)
+		h = append(h, dst...)
+		return append(h, 0x10, 0x92, 0x01, 0xBB)
+	}
+	return []byte("PROXY TCP4 203.0.113.7 198.51.100.9 4242 443\r\n")
+}
+
+// V1HeaderLen is the length of the v1 header MakeProxyHeader(0) returns.
+var V1HeaderLen = len(MakeProxyHeader(0))
